@@ -25,6 +25,7 @@ import sys
 import tempfile
 
 from . import common
+from . import c07_life
 from . import store_hist as sh
 from . import tieb_stores
 from .common import Check, sx
@@ -108,7 +109,11 @@ def _worker(args):
     out = []
     try:
         for n in range(lo, hi):
-            out.append({be: run_case(be, _WORK["cases"][n], tmpdir, n) for be in sh.BACKENDS})
+            case = _WORK["cases"][n]
+            if case["kind"].startswith("lifecycle"):
+                out.append({be: c07_life.run_lifecycle(be, case, tmpdir, n) for be in case.get("only", sh.BACKENDS)})
+            else:
+                out.append({be: run_case(be, case, tmpdir, n) for be in sh.BACKENDS})
     finally:
         shutil.rmtree(tmpdir, ignore_errors=True)
     return lo, out
@@ -120,7 +125,8 @@ def run_impl_batch(cases, procs=None):
     _WORK.update(cases=cases, tmp=tmp)
     n = len(cases)
     step = max(1, min(50, (n + procs * 4 - 1) // (procs * 4)))
-    jobs = [(i, min(n, i + step)) for i in range(0, n, step)]
+    n_big = next((i for i, c in enumerate(cases) if c["kind"] != "lifecycle-large"), n)   # the long ones lead, one job each
+    jobs = [(i, i + 1) for i in range(n_big)] + [(i, min(n, i + step)) for i in range(n_big, n, step)]
     results = [None] * n
     try:
         if procs == 1 or n <= 2:
@@ -271,7 +277,7 @@ def contents(view):
     return {} if view == [] else {w[0][0]: tuple(w[1:]) for w in view[0][1]}
 
 
-def oracle(case, run, backend):
+def oracle(case, run, backend, UNIV=UNIV):
     """None, or (signature suffix, description)."""
     stream = case["stream"]
     ti = UNIV.index(case["b"])
@@ -299,12 +305,82 @@ def oracle(case, run, backend):
         if len(changed) + len(new) > 1:
             return "step-shape", (f"heartbeat {k} {stream[k]} changed {len(changed)} and added {len(new)} events on "
                                   f"{backend} (expected at most one of the two)")
+    if run["reduce"] is None:
+        return None
     got = [w[1:] for w in reversed(run["final"])]
     want = [w[1:] for w in run["reduce"]]
     if got != want:
         return "reduce", (f"bucket after the loop on {backend} (oldest first, ids aside) {got} != heartbeat_reduce "
                           f"of the stream {want}")
     return None
+
+
+def oracle_lifecycle(case, res, backend, reduce_of):
+    """The property statement on every phase of a lifecycle case -> None or (signature suffix, description, phase)."""
+    univ = case["univ"]
+    fed = c07_life.fed_and_history(case)
+    for k, (ph, rec, f) in enumerate(zip(case["phases"], res["phases"], fed)):
+        be = rec["backend"]
+        where = f"{be} (phase {k} of the lifecycle, storage object {rec['st']})"
+        expected = None if (f is None or not in_domain(f)) else reduce_of(f, ph["p"])
+        if rec["other_store_changed"]:
+            return "other-store", f"feeding a bucket of storage object {rec['st']} changed the buckets of storage object(s) " \
+                                  f"{rec['other_store_changed']} ({where})", k
+        if ph["dense"]:
+            run = {"before": rec["before"], "steps": rec["steps"], "branches": rec["branches"], "final": rec["final"],
+                   "reduce": expected}
+            bad = oracle({"stream": ph["stream"], "b": ph["b"]}, run, where, univ)
+            if bad:
+                return bad[0], bad[1], k
+            continue
+        for i, st in enumerate(rec["steps"]):
+            if st[0][0] != 0:
+                return "raised", f"heartbeat {i} {ph['stream'][i]} raised {sh.ERRNAME.get(st[0][1], st[0][1])} on {where}", k
+        for b, vb, va in zip(univ, rec["first"], rec["last"]):
+            if b != ph["b"] and vb != va:
+                return "other-bucket", f"the stream changed bucket {b} on {where}", k
+        if expected is not None:
+            got = [w[1:] for w in reversed(rec["final"])]
+            want = [w[1:] for w in expected]
+            if got != want:
+                d = next((i for i, (x, y) in enumerate(zip(got, want)) if x != y), min(len(got), len(want)))
+                return "reduce", (f"bucket after the loop on {where}: {len(got)} events, heartbeat_reduce of what was fed since the "
+                                  f"bucket was created: {len(want)}; first difference at position {d}: "
+                                  f"{got[d:d + 2]} vs {want[d:d + 2]}"), k
+    return None
+
+
+def lifecycle_model_cases(case, res):
+    """[(phase index, wire case, record)]: the model of the phase's back end on everything done to that storage
+    object so far; sparse phases go in as the concrete operations the loop performed (no per-heartbeat dumps)"""
+    hist = {}
+    out = []
+    for k, (ph, rec) in enumerate(zip(case["phases"], res["phases"])):
+        h = hist.setdefault(ph["st"], [])
+        h += ph["ops"]
+        code = sh.BACKEND_CODE[rec["backend"]]
+        if ph["dense"]:
+            out.append((k, sx([code, case["univ"], h, ph["b"], pulse_us(ph["p"]), ph["stream"]]), rec))
+            h += rec["performed"]
+        else:
+            h += rec["performed"]
+            if not any(q["st"] == ph["st"] and q["dense"] for q in case["phases"][k + 1:]):   # else: part of that phase's history
+                out.append((k, sx([code, case["univ"], h, ph["b"], pulse_us(ph["p"]), []]), rec))
+        hist[ph["st"]] = list(h)
+    return out
+
+
+def shrink_lifecycle(case, backend, fails):
+    """drop phases, then heartbeats and operations of the remaining phases, while `fails(case)` holds"""
+    phases = common.shrink_list(case["phases"], lambda ps: bool(ps) and fails(dict(case, phases=ps)), max_steps=40)
+    for k in range(len(phases)):
+        for key in ("stream", "ops"):
+            if len(phases[k][key]) > 1 and len(phases[k][key]) <= 64:
+                def with_(lst, _k=k, _key=key):
+                    return dict(case, phases=phases[:_k] + [dict(phases[_k], **{_key: lst})] + phases[_k + 1:])
+                small = common.shrink_list(phases[k][key], lambda lst: fails(with_(lst)), max_steps=40)
+                phases = phases[:k] + [dict(phases[k], **{key: small})] + phases[k + 1:]
+    return dict(case, phases=phases)
 
 
 # ---------------------------------------------------------------------------
@@ -331,7 +407,25 @@ def pre1970_probe(ck):
 def main(argv=None):
     ck = Check("C07", argv)
     common.setup_impl_env()
+    # every storage object asks aw_core.dirs for the data directory, which creates it without exist_ok: workers that
+    # start at the same moment race (FileExistsError); it exists before they start
+    os.makedirs(os.path.join(os.environ["XDG_DATA_HOME"], "activitywatch", "aw-server"), exist_ok=True)
     ck.run_witnesses(["w05"])
+    # pristine snapshot of this process (harness/freshproc.py): lifecycle findings are re-run and shrunk there, on their own
+    from .freshproc import Fresh
+    import aw_datastore.storages  # noqa: F401 -- imported (not called) before the snapshot, so that the forks need not
+    import aw_transform.heartbeats  # noqa: F401
+    fresh_tmp = tempfile.mkdtemp(prefix="awc07-fresh-")
+    fresh_n = itertools.count()
+
+    def fresh_handler(req):
+        case, be = req
+        d = tempfile.mkdtemp(prefix="r", dir=fresh_tmp)
+        try:
+            return c07_life.run_lifecycle(be, case, d, 0)
+        finally:
+            shutil.rmtree(d, ignore_errors=True)
+    fresh = Fresh(fresh_handler)
     ck.prove(extra_targets=tieb_stores.STORES_DS[0], gen_kernels=tieb_stores.STORES_DS[1])   # ties A + B
     have_driver = ck.driver()
 
@@ -344,13 +438,68 @@ def main(argv=None):
         keep = set(ck.rng.sample(range(len(grid)), len(grid) // 3))
         cases = [c for i, c in enumerate(grid) if i in keep] + [c for c in cases if c["kind"] != "grid"]
     cases += random_cases(ck.rng, n_rand) + malformed_cases(ck.rng, n_bad)
+    # lifecycles (harness/c07_life.py): phases on storage objects that live on; the long streams lead the job queue
+    n_life = 160 if ck.tier == "quick" else 6000
+    cases = list(c07_life.large_cases(ck.rng, ck.tier)) + cases + c07_life.boundary_cases() \
+        + [c07_life.random_case(ck.rng) for _ in range(n_life)]
+    from aw_transform.heartbeats import heartbeat_reduce
+
+    def reduce_of(stream, p):
+        return [sh.ev_w(e) for e in heartbeat_reduce([sh.mk_ev(w) for w in stream], p)]
+
+    def replay_fails(case, be, sig):
+        """a lifecycle case re-run on its own in a process forked from the pristine snapshot"""
+        res = fresh.run((case, be))
+        bad = oracle_lifecycle(case, res, be, reduce_of)
+        return bad is not None and bad[0] == sig
     import time
     t_impl = time.time()
     results = run_impl_batch(cases)
     ck.coverage["timing_s"] = {"implementation_runs": round(time.time() - t_impl, 1)}
 
     runs = []
+    life_runs = []
     for case, res in zip(cases, results):
+        if case["kind"].startswith("lifecycle"):
+            ck.count(case["kind"])
+            ck.count("lifecycle:storage-objects=%d" % len(case["stores"]))
+            for be in case.get("only", sh.BACKENDS):
+                r = res[be]
+                for ph, rec in zip(case["phases"], r["phases"]):
+                    ck.count("lifecycle:phase:%s:%s" % (be, ph["via"]))
+                    ck.count("lifecycle:phase:stream-len>10000" if len(ph["stream"]) > 10000 else "lifecycle:phase:stream-len<=10000")
+                    if any(op[0] == 2 and op[1] == ph["b"] for op in ph["ops"]):
+                        ck.count("lifecycle:phase:fed-bucket-deleted-and-created-again")
+                    for br in rec["branches"]:
+                        ck.count(f"{be}:{br}")
+                merged_after_recreate = any(
+                    any(op[0] == 2 and op[1] == ph["b"] for op in ph["ops"]) and "merge" in rec["branches"]
+                    for ph, rec in zip(case["phases"], r["phases"]))
+                ck.note_case([be, "lifecycle", case["stores"], [[ph["st"], ph["via"], ph["ops"], ph["b"], ph["p"], rel(ph["stream"][:50]),
+                                                                 len(ph["stream"])] for ph in case["phases"]]],
+                             nontrivial=merged_after_recreate or len(case["stores"]) > 1)
+                bad = oracle_lifecycle(case, r, be, reduce_of)
+                if bad:
+                    sig = bad[0]
+                    alone = replay_fails(case, be, sig)
+                    small = case
+                    if alone and len(ck.violations) < 3 and case["kind"] == "lifecycle":
+                        small = shrink_lifecycle(case, be, lambda c: replay_fails(c, be, sig))
+                        bad = oracle_lifecycle(small, fresh.run((small, be)), be, reduce_of) or bad
+                    ck.failing_input(f"C07:{be}:{sig}", bad[1],
+                                     {"backend": be, "storage_objects": [be if s == "X" else c07_life.partner(be, s == "X2") for s in small["stores"]],
+                                      "failing_phase": bad[2],
+                                      "phases": [{"storage_object": ph["st"], "operations_issued_through": ph["via"],
+                                                  "operations": [sh.describe(o) for o in ph["ops"][:40]], "operations_wire": ph["ops"][:40],
+                                                  "then_heartbeats_into_bucket": sh.s_of(ph["b"]), "pulsetime_s": ph["p"],
+                                                  "stream_wire(id?,ts_us,dur_us,data_label)": ph["stream"][:60],
+                                                  "stream_len": len(ph["stream"])} for ph in small["phases"]],
+                                      "reproduces_alone_in_a_fresh_process": alone,
+                                      "how": "harness/c07_life.py run_lifecycle: every phase on the SAME storage object(s), the standard "
+                                             "loop over Datastore/Bucket; expected = heartbeat_reduce of what was fed into the bucket since "
+                                             "it was created"})
+                life_runs.append((case, be, r))
+            continue
         P = pulse_us(case["p"])
         dom = case["domain"] and in_domain(case["stream"])
         ck.count(case["kind"])
@@ -412,6 +561,42 @@ def main(argv=None):
                 got = [e[1:] for e in tv[0][1]]        # sorted by id = storage order for every back end here
                 if got != [e[1:] for e in mreduce]:
                     ck.disagreement("statement", f"{be}: model ingest {got} != model heartbeat_reduce {mreduce}", {"case": w})
+
+    if have_driver and life_runs:
+        items = [(case, be, k, w, rec) for case, be, r in life_runs for k, w, rec in lifecycle_model_cases(case, r)]
+        t_model = time.time()
+        from concurrent.futures import ThreadPoolExecutor
+        long_ = [i for i, it in enumerate(items) if len(it[3]) > 100_000]
+        parts = [[i] for i in long_] + [[i for i in range(len(items)) if i not in set(long_)]]
+        outs = [None] * len(items)
+        with ThreadPoolExecutor(max_workers=8) as ex:       # the driver is a subprocess per batch: the long cases side by side
+            for idx, res_ in zip(parts, ex.map(lambda idx: common.run_driver("C07", [items[i][3] for i in idx]) if idx else [], parts)):
+                for i, o in zip(idx, res_):
+                    outs[i] = o
+        ck.coverage["timing_s"]["model_runs_lifecycles"] = round(time.time() - t_model, 1)
+        for (case, be, k, w, rec), mo in zip(items, outs):
+            ph = case["phases"][k]
+            what = f"{rec['backend']} (lifecycle under test for {be}, phase {k}, storage object {rec['st']}, via {ph['via']})"
+            if mo == [-999]:
+                ck.disagreement("ingest-lifecycle", "driver could not decode a case", {"case": w[:2000]})
+                continue
+            msteps, mfinal, _ = mo
+            msteps = [sh.canon_step(x) for x in msteps]
+            mfinal = sh.canon_step(mfinal)
+            if ph["dense"]:
+                if msteps != rec["steps"]:
+                    i = next((i for i, (a, b) in enumerate(zip(msteps, rec["steps"])) if a != b), min(len(msteps), len(rec["steps"])))
+                    ck.disagreement("ingest-lifecycle", f"{what}: model and implementation differ at heartbeat {i} of "
+                                                        f"{rel(ph['stream'][:30])} (p={ph['p']}): model "
+                                                        f"{msteps[i] if i < len(msteps) else None} impl "
+                                                        f"{rec['steps'][i] if i < len(rec['steps']) else None}",
+                                    {"backend": rec["backend"], "case": w[:4000], "phase": k})
+            elif mfinal[1:] != rec["last"]:
+                ck.disagreement("ingest-lifecycle", f"{what}: after the operations the loop performed the model's buckets differ "
+                                                    f"from the implementation's", {"backend": rec["backend"], "phase": k})
+    fresh.close()
+    shutil.rmtree(fresh_tmp, ignore_errors=True)
+    ck.coverage["lifecycle_replays_in_fresh_processes"] = fresh.evaluations
 
     pre1970_probe(ck)
     ck.assumptions += [
